@@ -34,12 +34,12 @@ def check(ctx):
     multilot = ctx.fold.get('rgxlib.lots', 'multilot_regex')
     mlwa = ctx.fold.get('rgxlib.lots', 'multilot_with_aliquot_regex')
     thr = ctx.fold.get('rgxlib.misc', 'through_regex')
-    _inc(ctx, 'RX-LANG', 'multisec_regex', F.MULTISEC, multisec, 'section lists')
-    _inc(ctx, 'RX-LANG', 'multilot_regex', F.MULTILOT, multilot, 'lot lists')
-    _inc(ctx, 'RX-LANG', 'multilot_with_aliquot_regex', F.LOT_WITH_ALIQUOT, mlwa, 'lot lists with leading aliquot')
+    ctx.attempt(_inc, 'RX-LANG', 'multisec_regex', F.MULTISEC, multisec, 'section lists')
+    ctx.attempt(_inc, 'RX-LANG', 'multilot_regex', F.MULTILOT, multilot, 'lot lists')
+    ctx.attempt(_inc, 'RX-LANG', 'multilot_with_aliquot_regex', F.LOT_WITH_ALIQUOT, mlwa, 'lot lists with leading aliquot')
     # through words, with the flags through_regex itself is compiled with
     # (thru_rightmost uses it directly)
-    _inc(ctx, 'RX-LANG', 'through_regex', F.THROUGH, thr, "through words (any case)")
+    ctx.attempt(_inc, 'RX-LANG', 'through_regex', F.THROUGH, thr, "through words (any case)")
     L = common.lang(ctx, thr)
     for w in ['and', '&', ',', ';', 'AND']:
         ctx.check(not L.search(w), 'RX-LANG-NEG', f"{w!r} is not a through-word",
@@ -83,14 +83,14 @@ def check(ctx):
               detail_bad="the colon group is missing / mandatory / inside the repeat",
               key="RX-GROUPS|multisec_regex|colon")
 
-    _helpers(ctx, multisec, multilot)
+    ctx.attempt(_helpers, multisec, multilot)
     secf = ctx.repo.func('SecUnpacker.unpack_sections')
     lotf = ctx.repo.func('LotUnpacker.unpack_lots')
     a = _range_algebra(ctx, secf, 'sec')
     b = _range_algebra(ctx, lotf, 'lot')
     ctx.check(a == b, 'SIB', 'unpack_sections / unpack_lots agree on the range skeleton',
               f"both: {a}", f"sections: {a}; lots: {b}", key="SIB|unpackers|range")
-    _routes(ctx)
+    ctx.attempt(_routes)
 
 
 def _helpers(ctx, multisec, multilot):
